@@ -111,6 +111,8 @@ impl<'a, 'o, 'c> CommonMarkFormatter<'a, 'o, 'c> {
     }
 
     fn output(&mut self, buf: &[u8], wrap: bool, escaping: Escaping) {
+        #[cfg(comrak_verif)]
+        crate::verif::add(10, 1 + buf.len());
         let wrap = wrap && !self.no_linebreaks;
 
         if self.in_tight_list_item && self.need_cr > 1 {
